@@ -43,6 +43,58 @@ type Term struct {
 	isBool bool
 	lo, hi *big.Int // interval, Int terms only; nil = unbounded
 	size   int      // node count estimate
+	h1, h2 uint64   // structural hash (path independent), set by seal()
+}
+
+func mix(h, x uint64) uint64 {
+	h ^= x + 0x9e3779b97f4a7c15 + (h << 6) + (h >> 2)
+	h *= 0xff51afd7ed558ccd
+	h ^= h >> 33
+	return h
+}
+
+func hashStr(seed uint64, s string) uint64 {
+	h := seed
+	for i := 0; i < len(s); i++ {
+		h = (h ^ uint64(s[i])) * 1099511628211
+	}
+	return h
+}
+
+// hash returns the structural hash, computing it on first use (idempotent, so the
+// benign race between workers sharing summary terms is harmless; stores are atomic).
+func (t *Term) hash() (uint64, uint64) {
+	if h := atomic.LoadUint64(&t.h1); h != 0 {
+		return h, atomic.LoadUint64(&t.h2)
+	}
+	for _, x := range t.args {
+		x.hash()
+	}
+	t.seal()
+	return t.h1, t.h2
+}
+
+func (t *Term) seal() *Term {
+	a, b := uint64(t.op)+1, uint64(t.op)*31+7
+	if t.isBool {
+		a, b = a+1000, b+2000
+	}
+	if t.c != nil {
+		s := t.c.String()
+		a, b = hashStr(a^14695981039346656037, s), hashStr(b^1099511628211, s)
+	}
+	if t.name != "" {
+		a, b = hashStr(a^0xabcdef, t.name), hashStr(b^0x123457, t.name)
+	}
+	for _, x := range t.args {
+		a, b = mix(a, atomic.LoadUint64(&x.h1)), mix(b, atomic.LoadUint64(&x.h2)^0x5555)
+	}
+	if a == 0 {
+		a = 1
+	}
+	atomic.StoreUint64(&t.h2, b)
+	atomic.StoreUint64(&t.h1, a)
+	return t
 }
 
 var termCounter uint64
